@@ -7,6 +7,7 @@ pub mod extract;
 pub mod group;
 pub mod history;
 pub mod matching;
+pub mod repro;
 pub mod rw;
 pub mod sesscc;
 pub mod slots;
@@ -54,6 +55,7 @@ pub fn registry() -> Vec<Box<dyn Check>> {
         Box::new(rw::RwCheck { id: "C11R" }),
         Box::new(rw::StopCheck),
         Box::new(explain::ExplainCheck),
+        Box::new(repro::ReproCheck),
         Box::new(cross::CrossCheck { id: "C11" }),
         Box::new(cross::CrossCheck { id: "C12" }),
         Box::new(history::HistoryCheck),
